@@ -2,5 +2,5 @@ SPECIFICATION Spec
 CONSTANTS
   Thorough = FALSE
   Emit = TRUE
-INVARIANTS SameDefs WideAgrees WideSameDefs NewShape Injective InData SetOne FromBytes EmitVec
+INVARIANTS SameDefs WideAgrees WideSameDefs TallAgrees NewShape Injective InData SetOne FromBytes EmitVec
 CHECK_DEADLOCK FALSE
